@@ -250,3 +250,10 @@ def r13(rr, repo):
     rr.floor('clock readings in poll_recv', len(uses), 1, za.mod, za.S_poll)
     mono = all((U(c.func) == 'time_ns' and clock in ('monotonic_ns',)) or 'monotonic' in U(c.func) for c in uses)
     rr.ob('the clock that stamps requests and ages them against ZMQ_CONN_TIMEOUT is monotonic', mono, za.mod, uses[0] if uses else za.S_poll, witness=f'time_ns is imported as {clock}', key='conn-timeout-clock-monotonic')
+
+
+@rule('C06.R14', "a restarted relay catches up with its consumer in one step: the id its sender learns from a downstream request (returned by send() also when nothing was published) reaches its own receiver "
+                 "as the next expected id, on every return of MQ.send but the timeout - otherwise a relay restarted behind its live consumer discards one frame per id until its own count has caught up (shares C02.R7)")
+def r14(rr, repo):
+    from .c02 import r7 as c02r7
+    c02r7(rr, repo)
